@@ -22,7 +22,7 @@ ASSUMPTIONS = [
     "'unclosed transport' ResourceWarning is recorded but tolerated in exactly that situation",
     "external cancellation of a caller's task is outside the property's quantifier and is not driven",
 ]
-MUST = ["reconnect_after_failure", "reconnect_after_close", "reconnect_after_peerdrop", "reconnect_after_loop_change",
+MUST = ["answered_request_right_after_a_rejected_one", "reconnect_after_failure", "reconnect_after_close", "reconnect_after_peerdrop", "reconnect_after_loop_change",
         "keepalive_reuse", "no_keepalive_closed_after_request", "final_close_zero", "max_one_checked",
         "queued_caller_cancelled", "concurrent_close_and_requests", "setting_write_histories", "transparent_reconnect_checked", "two_objects_one_endpoint", "keepalive_option_rejected"]
 EXHAUSTIVE = {"quick": True, "thorough": True}
@@ -41,7 +41,8 @@ REQ_CLASSES = {
 }
 # classes whose script legitimately makes the library retransmit / reconnect
 RETRY_CLASSES = {"drop_ok", "exh", "garbage_ok", "closelate_ok", "close_ok", "late", "frag1", "reset_ok", "senderr"}
-ACTIONS = list(REQ_CLASSES) + ["CLOSE", "NEWLOOP", "PEERDROP"]
+# a request the inverter rejects, followed IN THE SAME LOOP ITERATION by a request it answers (no pause in which a deferred clean-up could run)
+ACTIONS = list(REQ_CLASSES) + ["CLOSE", "NEWLOOP", "PEERDROP", "REJ_THEN_OK"]
 
 
 def scenario(transport, ka, T, R, actions):
@@ -57,6 +58,11 @@ def scenario(transport, ka, T, R, actions):
         elif a == "NEWLOOP":
             segments.append(cur)
             cur = []
+        elif a == "REJ_THEN_OK":
+            reg += 2
+            by_reg[reg - 1], by_reg[reg] = [["exc", 2]], ["now"]
+            reg_class[reg - 1], reg_class[reg] = "rej", "ok"
+            cur.append(["b2b", ["read", reg - 1, 2], ["read", reg, 2]])
         else:
             reg += 1
             by_reg[reg] = [([x[0], x[1] * T] if (isinstance(x, list) and x[0] in ("delay", "nowjunk")) else
@@ -159,6 +165,16 @@ def check_run(sc, run, part: Part):
                                 f"#{a['idx']} and #{b['idx']}: {[(e[0], e[1]) for e in between]}"))
                 elif not between:
                     part.count("keepalive_reuse")
+    # (3b) a rejected request followed at once by an answered one: the second works, with one transmission of its own
+    for c in run.calls:
+        if c["step"][0] == "b2b":
+            ntx_ = len([e for e in engine.events_of_call(run, c["id"]) if e[1] == "tx"])
+            part.count("answered_request_right_after_a_rejected_one")
+            if c["outcome"] != "ok":
+                out.append((f"C10/{tr}/next-request-fails", f"{ctx}: the request issued right after a rejected one (same loop iteration) ended {c['outcome']}"))
+            elif ntx_ != 2 and not any(x in RETRY_CLASSES or x in ("ok_latebad", "ok_latereset") for x in sc["actions"]):
+                out.append((f"C10/{tr}/reconnect-not-transparent",
+                            f"{ctx}: a rejected request and, right after it, an answered one took {ntx_} transmissions instead of 2"))
     # (4) the request against the healthy peer succeeds
     healthy = [c for c in run.calls if c["step"][0] == "read" and c["step"][1] == sc["healthy_reg"]]
     if not healthy or healthy[0]["outcome"] != "ok":
@@ -168,7 +184,7 @@ def check_run(sc, run, part: Part):
         acts = sc["actions"]
         # ... and transparently: when nothing in the history can leave a stray answer behind (only answered requests, close(), loop changes
         # and - TCP - idle connection drops), the healthy request needs exactly one transmission
-        clean = {"ok", "slow_ok", "frag2_ok", "rej", "CLOSE", "NEWLOOP", "ok_latebad", "ok_latereset"} | ({"PEERDROP"} if tr == "tcp" else set())
+        clean = {"ok", "slow_ok", "frag2_ok", "rej", "CLOSE", "NEWLOOP", "ok_latebad", "ok_latereset", "REJ_THEN_OK"} | ({"PEERDROP"} if tr == "tcp" else set())
         ntx = len([e for e in engine.events_of_call(run, healthy[0]["id"]) if e[1] == "tx"])
         if all(a in clean for a in acts):
             part.count("transparent_reconnect_checked")
